@@ -383,14 +383,44 @@ func nameRule(c *Ctx, r *Report) {
 	}
 	wb := newNF(c)
 	wcall := ws[0].(*ssa.Call)
-	if !fieldCallRoles(wb, wcall.Call.Args[4]) {
+	// the arguments by the type of the callee's parameters (not by position): the name is the string, the value the
+	// reflect.Value, the tag options the tagOptions (when they are not handed over: the second result of parseTags)
+	argOf := func(pred func(t types.Type) bool) ssa.Value {
+		for i, p := range setF.Params {
+			if i < len(wcall.Call.Args) && pred(p.Type()) {
+				return wcall.Call.Args[i]
+			}
+		}
+		return nil
+	}
+	nameArg := argOf(func(t types.Type) bool { b, ok := t.Underlying().(*types.Basic); return ok && b.Kind() == types.String })
+	valArg := argOf(func(t types.Type) bool { return isNamed(t, "reflect", "Value") })
+	tagArg := argOf(func(t types.Type) bool { return isNamed(t, modPath, "tagOptions") })
+	if tagArg == nil {
+		for _, ci := range CallsIn(W, false) {
+			if f := ci.Common().StaticCallee(); f != nil && f.Name() == "parseTags" && c.InRepo(f) {
+				if call, ok := ci.(*ssa.Call); ok {
+					for _, ref := range *call.Referrers() {
+						if ex, ok := ref.(*ssa.Extract); ok && ex.Index == 1 {
+							tagArg = ex
+						}
+					}
+				}
+			}
+		}
+	}
+	if nameArg == nil || valArg == nil || tagArg == nil {
+		r.add("R06a", c.FnName(W), "store site", c.Pos(wcall.Pos()), Undecided, true, "normalizeSetField is not handed a name (string) and a value (reflect.Value), or the tag options of the field are not found")
+		return
+	}
+	if !fieldCallRoles(wb, valArg) {
 		r.add("R06a", c.FnName(W), "store site", c.Pos(wcall.Pos()), Undecided, true, "the value stored is not a field of a struct value (reflect.Value.Field)")
 		return
 	}
 	if p := optionsParam(W); p != nil {
 		wb.Role(p, "O")
 	}
-	w.name, w.value, w.tagOpts = wb.Of(wcall.Call.Args[3]), wb.Of(wcall.Call.Args[4]), wb.Of(wcall.Call.Args[2])
+	w.name, w.value, w.tagOpts = wb.Of(nameArg), wb.Of(valArg), wb.Of(tagArg)
 	w.conds = relevantConds(wb.CondsAt(wcall))
 	w.pos = wcall.Pos()
 
@@ -446,7 +476,20 @@ func nameRule(c *Ctx, r *Report) {
 		}
 	}
 	gcall := gcalls[0].(*ssa.Call)
-	gname, gval, gtyp := sb.Of(gcall.Call.Args[2]).String(), sb.Of(gcall.Call.Args[3]).String(), sb.Of(gcall.Call.Args[4]).String()
+	// the field's own name, value and type reach the lookup: as three arguments (in any position) or as the info itself
+	gname, gval, gtyp := "(not passed)", "(not passed)", "(not passed)"
+	for _, a := range gcall.Call.Args {
+		switch f := sb.Of(a).String(); f {
+		case "$F.name":
+			gname = f
+		case "$F.value":
+			gval = f
+		case "$F.ftype":
+			gtyp = f
+		case "$F":
+			gname, gval, gtyp = "$F.name", "$F.value", "$F.ftype" // handed over whole: the callee selects the fields (R06p reads its use of the name)
+		}
+	}
 	r.Check(gname == "$F.name" && gval == "$F.value" && gtyp == "$F.ftype", "R06a", c.FnName(RS), "lookup uses the field's own info", c.Pos(gcall.Pos()),
 		"reifyGetField(cfg, ..., info.name, info.value, info.ftype) with info from accessField for this field",
 		fmt.Sprintf("reifyStruct looks a field up under a name / into a value / with a type that is not accessField's result for that field: name=%s value=%s type=%s", gname, gval, gtyp))
@@ -503,6 +546,9 @@ func pathRule(c *Ctx, r *Report) {
 				b.Role(p, "O")
 			case isNamed(p.Type(), modPath, "fieldOptions"):
 				b.bind[p] = &nf{op: "struct", name: "fieldOptions", fields: map[string]*nf{"opts": {op: "role", name: "O"}}}
+			case isNamed(p.Type(), modPath, "fieldInfo"):
+				// the field's info handed over whole: its name and options carry the roles
+				b.bind[p] = &nf{op: "struct", name: "fieldInfo", fields: map[string]*nf{"name": {op: "role", name: "N"}, "options": {op: "role", name: "O"}}}
 			case isNamed(derefType(p.Type()), modPath, "Config"):
 				b.Role(p, "C")
 			}
